@@ -17,7 +17,7 @@ from checks.common.cases import explore_cases, run_case
 PROP = 'C06'
 LEVEL = 'exploration'
 SHARDS = {'quick': 4, 'thorough': 16}
-BUDGET_S = {'quick': 40, 'thorough': 400}
+BUDGET_S = {'quick': 150, 'thorough': 400}
 RULE = ('systematic matrix: each of ~75 significant characters (every RFC 3986 delimiter, %, +, space, '
         'controls, non-ASCII incl. NFC-unstable and astral) alone, doubled and embedded, in each of the six '
         'component kinds (username, password, path segment, query key, query value, fragment); then random '
